@@ -200,7 +200,7 @@ func c12StringBatches(r *mon.Run) [][]string {
 		all = append(all, "line1\n"+string([]byte{byte(b)})+"line2")
 	}
 	rnd := r.Rand("C12/strings", 0)
-	for i, n := 0, r.Pick(20000, 400000); i < n; i++ {
+	for i, n := 0, r.Pick(20000, 2000000); i < n; i++ {
 		all = append(all, randString(rnd))
 	}
 	var out [][]string
